@@ -17,7 +17,7 @@ from nflows.transforms.base import InverseNotAvailable
 
 PROPERTY = "C14"
 RULE = (
-    "subjects {ActNorm on [B,F], ActNorm on [B,C,H,W], BatchNorm on [B,F]} x ALL histories of length <=5 (thorough <=7) over the 6-letter alphabet "
+    "subjects {ActNorm on [B,F], ActNorm on [B,C,H,W], BatchNorm on [B,F], ActNorm / BatchNorm inside a CompositeTransform (driven, saved and loaded through the parent)} x ALL histories of length <=5 (thorough <=7) over the 6-letter alphabet "
     "{train, eval, fwd(b1), fwd(b2), inv(b1), saveload (state dict into a freshly constructed instance, continue on the copy)} with two fixed batches of different statistics; "
     "plus BFS over the exact concrete state for ActNorm until no new state appears. Non-trivial = the history contains a training-mode forward followed by at least one more observing step."
 )
@@ -28,7 +28,7 @@ ASSUMPTIONS = [
 ]
 
 SIGMA = ("train", "eval", "fwd1", "fwd2", "inv1", "saveload")
-SUBJECTS = ("ActNorm2d", "ActNorm4d", "BatchNorm")
+SUBJECTS = ("ActNorm2d", "ActNorm4d", "BatchNorm", "ActNorm2d+nested", "BatchNorm+nested")  # +nested: the layer sits inside a CompositeTransform and is driven, saved and loaded through it
 MOM, EPS = 0.25, 1e-3
 
 
@@ -150,6 +150,8 @@ def run_history(subj, hist):
     """returns (violation (cell, symptom, msg) or None, info)"""
     B = batches(subj)
     m = fresh(subj, 0)
+    nested = subj.endswith("+nested")
+    root = T.CompositeTransform([m]) if nested else m
     ref = Ref(subj, m)
     info = {"nontrivial": False, "train_fwd": False}
     for i, op in enumerate(hist):
@@ -159,17 +161,18 @@ def run_history(subj, hist):
         y = ld = None
         try:
             if op == "train":
-                m.train()
+                root.train()
             elif op == "eval":
-                m.eval()
+                root.eval()
             elif op == "saveload":
                 m2 = fresh(subj, 1 + i)
-                m2.load_state_dict(m.state_dict())
-                m2.train(m.training)  # the mode is not part of the state dict; the caller keeps it
-                m = m2
+                root2 = T.CompositeTransform([m2]) if nested else m2
+                root2.load_state_dict(root.state_dict())
+                root2.train(root.training)  # the mode is not part of the state dict; the caller keeps it
+                m, root = m2, root2
             else:
                 with torch.no_grad():
-                    y, ld = (m.forward if op.startswith("fwd") else m.inverse)(B[op[-1]])
+                    y, ld = (root.forward if op.startswith("fwd") else root.inverse)(B[op[-1]])
         except Exception as e:
             err = e
         if op.startswith(("fwd", "inv")) and info["train_fwd"]:
@@ -283,7 +286,7 @@ def units(tier, seed):
         for first2 in itertools.product(SIGMA, repeat=2):
             us.append(("hist", subj, first2, depth))
         us.append(("short", subj))
-        if subj.startswith("ActNorm"):
+        if subj.startswith("ActNorm") and not subj.endswith("+nested"):
             us.append(("bfs", subj))
     return us
 
